@@ -5,7 +5,7 @@ Every random choice comes from the one `rng` passed in.  Case grammar: see harne
 import os
 from itertools import permutations
 
-HOOK = os.environ.get("VERIF_HOOK_GCD", "0") == "1"
+HOOK = os.environ.get("VERIF_HOOK_GCD", "1") == "1"   # the hook is committed in /repo (c973662); set VERIF_HOOK_GCD=0 for a tree without it
 PRIMES = [2, 3, 5, 7, 13, 101]
 TIMEOUT = 900
 
